@@ -45,7 +45,7 @@ type c10Run struct {
 	desc   []string
 	faulty bool
 	// ground truth
-	consistent map[int]bool // verifier -> the deal it was sent is a correct deal of the dealer's session
+	consistent  map[int]bool // verifier -> the deal it was sent is a correct deal of the dealer's session
 	approvedOwn map[int]bool
 }
 
